@@ -285,6 +285,14 @@ def add_post(s0, s, specs, grp, func, fields, result_is=None):
             o != s0.sel("CallbackSpecList.conventional_specs", specs), z3.Select(s["set.has"], o) == z3.Select(s0["set.has"], o)),
             patterns=[z3.Select(s["set.has"], o)]),
     }
+    if "is_convention" in fields:
+        # the set of convention names is what Listeners.resolve intersects with a provider's attributes: a convention spec
+        # that is not in it is never resolved
+        conv = s0.sel("CallbackSpecList.conventional_specs", specs)
+        x = z3.Const("x!apc", Int)
+        added = z3.And(n == n0 + 1, fields["is_convention"])
+        f["C02|convention-set-gains-exactly-the-name-of-an-appended-convention-spec"] = z3.ForAll([x], z3.Select(
+            z3.Select(s["set.has"], conv), x) == z3.Or(z3.Select(z3.Select(s0["set.has"], conv), x), z3.And(added, x == func)))
     return f
 
 
